@@ -294,15 +294,16 @@ func (r R) build(c *Case) element {
 
 // copyOf is "a copy" of an element as Go code makes one: the struct is copied and the child list, which
 // ApplyUpdatesUpTo writes to, is duplicated; the update list is the same slice value.
-func copyOf(e element) element {
+// spare is the unused capacity behind the copied child list (lists built by append usually have some).
+func copyOf(e element, spare int) element {
 	switch x := e.(type) {
 	case *osm.Way:
 		c := *x
-		c.Nodes = append(osm.WayNodes(nil), x.Nodes...)
+		c.Nodes = append(make(osm.WayNodes, 0, len(x.Nodes)+spare), x.Nodes...)
 		return &c
 	case *osm.Relation:
 		c := *x
-		c.Members = append(osm.Members(nil), x.Members...)
+		c.Members = append(make(osm.Members, 0, len(x.Members)+spare), x.Members...)
 		return &c
 	}
 	return nil
@@ -392,7 +393,7 @@ func (r R) geom(orig element, t int, applied element, at0 [][2]int, crash0 bool)
 func (r R) group(c *Case, line []byte) RecGroup {
 	var g GotGroup
 	orig := r.build(c).(*osm.Way)
-	cp := copyOf(orig)
+	cp := copyOf(orig, c.Profile%3)
 	g.AErr = r.apply(cp, c.T1).Err
 	g.Applied = absLine(cp.(*osm.Way).LineString())
 	var ms osm.Members
@@ -446,7 +447,7 @@ func main() {
 		orig := r.build(&c)
 		at01, c01 := r.lineAt(orig, c.T1)
 		at02, c02 := r.lineAt(orig, c.T2)
-		e1 := copyOf(orig)
+		e1 := copyOf(orig, c.Profile%3)
 		g.A1 = r.apply(e1, c.T1)
 		g.G1 = r.geom(orig, c.T1, e1, at01, c01) // LineString() of e1 is taken before the second call
 		if g.A1.Err == "crash" {
@@ -454,7 +455,7 @@ func main() {
 		} else {
 			g.A12 = r.apply(e1, c.T2)
 		}
-		e2 := copyOf(orig)
+		e2 := copyOf(orig, (c.Profile+1)%3)
 		g.A2 = r.apply(e2, c.T2)
 		g.G2 = r.geom(orig, c.T2, e2, at02, c02)
 		g.Own = [][2]int{r.ownAbs(e1), r.ownAbs(e2), r.ownAbs(orig)}
